@@ -621,19 +621,35 @@ def eval_parser(case, mres, mchk):
             raise RuntimeError("in-Coq check of the generated file failed (%s) for case %s" % (mchk, brief(case)))
     model = parse_ser_odict(mres)
     os.makedirs(FILES, exist_ok=True)
-    path = os.path.join(FILES, "%s_%d_%d.%s" % (case_hash(case), os.getpid(), next(_FILE_NO),
-                                                "nwchem" if kind == "nwchem" else "gbs"))
+    # History part of the property ("repeated calls"): every case of one worker process is written to the SAME
+    # path (so the file at that path changes from call to call), and after a successful read the caller scribbles
+    # over what it was given and reads the file again: both reads must return what the file says now.
+    path = os.path.join(FILES, "reused_%d.%s" % (os.getpid(), "nwchem" if kind == "nwchem" else "gbs"))
     with open(path, "w", newline="\n") as f:
         f.write("\n".join(lines) + "\n")
+    history = None
     try:
-        st, impl = call_impl(parse_nwchem if kind == "nwchem" else parse_gbs, path)
+        parser = parse_nwchem if kind == "nwchem" else parse_gbs
+        st, impl = call_impl(parser, path)
         if st == "ok":
             # normalisation touches the returned arrays only; a failure there is treated like a raise
+            raw = impl
             st2, nimpl = call_impl(norm_impl_dict, impl)
             if st2 != "ok":
                 st, impl = "rejected", "result not of the documented form: " + nimpl
             else:
                 impl = nimpl
+                call_impl(scribble, raw)
+                st3, raw2 = call_impl(parser, path)
+                st4, nimpl2 = call_impl(norm_impl_dict, raw2) if st3 == "ok" else ("rejected", raw2)
+                if st3 != "ok" or st4 != "ok":
+                    history = {"kind": "history", "second_read": "rejected", "why": str(nimpl2)[:300]}
+                else:
+                    d2 = first_diff(nimpl2, impl)
+                    if d2 is not None:
+                        history = {"kind": "history", "where": d2, "first_read": brief(impl),
+                                   "second_read": brief(nimpl2),
+                                   "note": "same file read twice; the caller modified the first result in between"}
     finally:
         try:
             os.remove(path)
@@ -663,7 +679,25 @@ def eval_parser(case, mres, mchk):
         if d is not None:
             out["detail"] = {"kind": "value", "against": "ast", "where": d, "impl": brief(impl),
                              "expected": brief(expected(case["ast"])), "pre_lines": npre, "file": lines[:12]}
+            return out
+    if history is not None:
+        history["file"] = lines[:12]
+        out["detail"] = history
     return out
+
+
+def scribble(raw):
+    """What a caller may legitimately do with the dictionary it was handed: change it in place."""
+    for k in list(raw.keys()):
+        shells = raw[k]
+        for sh in shells:
+            for arr in sh[1:]:
+                if isinstance(arr, np.ndarray) and arr.flags.writeable:
+                    arr *= -3.0
+                    arr += 1.0
+        if len(shells) > 1:
+            shells.pop()
+    raw["Zz"] = []
 
 
 # ------------------------------------------------------------------------------------------------
